@@ -257,6 +257,15 @@ def fold(actions, p, reverse):
     return p
 
 
+def fold3(actions, p3, w0, reverse):
+    """the 3-D step-by-step reading: every step acts on the 3-D point (padded with w0 = 1 for a point, 0 for a
+    vector) and hands a 3-D point to the next one.  Equal to `fold` when every step is affine."""
+    p = list(p3)
+    for a in (reversed(actions) if reverse else actions):
+        p = a[1 if reverse else 0](p + [F(w0)])[:3]
+    return p
+
+
 def abs_bound(mats):
     """entrywise bound of every partial product of the given 4x4 float matrices (any association order)"""
     b = np.eye(4)
@@ -321,6 +330,27 @@ def unitri(rng):
             m[i][j] = F(rng.randint(-2, 2))
     inv = frac_inverse(m)
     return [[float(x) for x in row] for row in m], [[float(x) for x in row] for row in inv]
+
+
+def nonaffine(rng):
+    """small-integer unimodular 4x4 whose last row is not 0 0 0 1, and its exact integer inverse
+    (upper unitriangular times lower unitriangular with a non-zero entry in the last row)"""
+    while True:
+        u = [[F(int(i == j)) for j in range(4)] for i in range(4)]
+        for i in range(3):
+            for j in range(i + 1, 4):
+                if rng.random() < 0.5:
+                    u[i][j] = F(rng.randint(-1, 1))
+        lo = [[F(int(i == j)) for j in range(4)] for i in range(4)]
+        for j in range(3):
+            lo[3][j] = F(rng.randint(-1, 1))
+        if not any(lo[3][:3]):
+            lo[3][rng.randint(0, 2)] = F(rng.choice([-1, 1]))
+        m = [[sum(u[i][t] * lo[t][j] for t in range(4)) for j in range(4)] for i in range(4)]
+        if m[3] == [0, 0, 0, 1]:
+            continue
+        inv = frac_inverse(m)
+        return [[float(x) for x in row] for row in m], [[float(x) for x in row] for row in inv]
 
 
 LENGTH_UNITS = ["m", "mm", "cm", "in", "ft"]
@@ -467,7 +497,12 @@ def gen_bad_step(rng):
     return ["append", m, None]
 
 
-def gen_history(rng, stream, n, bad_rate=0.0):
+def gen_nonaffine_step(rng):
+    f, i = nonaffine(rng)
+    return ["append", f, i if rng.random() < 0.6 else None]
+
+
+def gen_history(rng, stream, n, bad_rate=0.0, nonaffine_steps=0):
     budget = Budget(8 if stream == "lattice" else 4.0)
     steps = []
     for _ in range(n):
@@ -475,6 +510,8 @@ def gen_history(rng, stream, n, bad_rate=0.0):
             steps.append(gen_bad_step(rng))
         else:
             steps.append(gen_step(rng, stream, budget))
+    for _ in range(nonaffine_steps):
+        steps.insert(rng.randint(0, len(steps)), gen_nonaffine_step(rng))
     return steps
 
 
